@@ -121,6 +121,21 @@ theorem crash_err {α : Type} (w : String) (e : Err) : (crash w : M α) = .error
   unfold crash; simp; exact eq_comm
 theorem crash_ok {α : Type} (w : String) (y : α) : (crash w : M α) = .ok y ↔ False := by unfold crash; simp
 
+/-- the check of the previous next_parse_offset can only crash when no parse_info has been seen -/
+theorem checkLastNext_crash (s : VState) (w : String) (h : checkLastNext s = .error (.crash w)) : s.lastPI = none := by
+  unfold checkLastNext at h
+  cases hn : s.nextOff with
+  | none => rw [hn] at h; simp [pure_err] at h
+  | some n =>
+    rw [hn] at h
+    simp only at h
+    split at h
+    · simp [pure_err] at h
+    · simp only [bind_err, getOrCrash_err, guardRej_err, getOrCrash_ok] at h
+      rcases h with h | ⟨_, _, h⟩
+      · exact h.1
+      · cases h.2
+
 /-- a crash of `parse_info` can only be the `int - None` of the next-offset check -/
 theorem parseInfo_crash (s : VState) (u : DUnit) (w : String)
     (h : parseInfo s u = .error (.crash w)) : s.nextOff.isSome = true ∧ s.lastPI = none := by
@@ -455,7 +470,18 @@ theorem run_no_crash (cfg : Config)
     ∀ (us : List DUnit) (s : VState), (∀ u ∈ us, KindOk u) → Inv s → ¬ IsCrash (run cfg s us).1 := by
   intro us
   induction us with
-  | nil => intro s _ _; unfold run; split <;> simp [IsCrash]
+  | nil =>
+    intro s _ _
+    unfold run
+    split
+    · simp [IsCrash]
+    · rename_i hl
+      cases hc : checkLastNext s with
+      | ok _ => simp [IsCrash]
+      | error v =>
+        cases v with
+        | reject c => simp [IsCrash, Err.toVerdict]
+        | crash w => exact absurd (checkLastNext_crash s w hc) (by intro e; rw [e] at hl; exact hl rfl)
   | cons u rest ih =>
     intro s hk hi
     have hku := hk u List.mem_cons_self
@@ -579,7 +605,9 @@ theorem run_append_ok (cfg : Config) : ∀ (us1 : List DUnit) (s : VState) (us2 
       unfold run at h
       split at h
       · rename_i hl; simpa using hl
-      · cases h
+      · cases hc : checkLastNext s with
+        | ok _ => rw [hc] at h; cases h
+        | error v => rw [hc] at h; exact absurd h (toVerdict_ne_ok v)
     have e : (run cfg s []).2 = s.decoded := by unfold run; simp [hl]
     simp only [List.nil_append, totalLen, List.map_nil, List.sum_nil, Nat.add_zero]
     rw [e, ← hb hl]
@@ -628,7 +656,19 @@ theorem run_append_err (cfg : Config) : ∀ (us1 : List DUnit) (s : VState) (us2
     unfold run at h
     split at h
     · exact absurd h.symm h1
-    · exact absurd h.symm h2
+    · -- the error is the next-offset check at the top of `parse_info`: the next unit meets it too
+      cases hc : checkLastNext s with
+      | ok _ => rw [hc] at h; exact absurd h.symm h2
+      | error e =>
+        cases us2 with
+        | nil => rfl
+        | cons u rest =>
+          rename_i hl
+          simp only [List.nil_append]
+          have hp : parseInfo s u = .error e := by unfold parseInfo; rw [hc]; rfl
+          rw [run_cons, hp]
+          unfold run
+          rw [if_neg hl, hc]
   | cons u rest ih =>
     intro s us2 v h h1 h2
     rw [List.cons_append, run_cons cfg s u (rest ++ us2), run_cons cfg s u rest]
